@@ -30,6 +30,7 @@ type Engine struct {
 	fids   map[*ssa.Function]int
 	fidFn  []*ssa.Function
 	contractFiles []string
+	targets map[string][]fnTarget
 }
 
 func LoadEngine(repo string, stdlibDir string) (*Engine, error) {
